@@ -585,6 +585,16 @@ func TestCheck(t *testing.T) {
 				}
 				return runLoss(t, lc)
 			}
+			var hprobe struct {
+				Halt string `json:"halt_kind"`
+			}
+			if json.Unmarshal(in, &hprobe) == nil && hprobe.Halt != "" {
+				var hc HaltCase
+				if err := json.Unmarshal(in, &hc); err != nil {
+					return HaltResult{Harness: "bad case"}
+				}
+				return runHalt(t, hc)
+			}
 			var c Case
 			if err := json.Unmarshal(in, &c); err != nil {
 				return Result{Harness: "bad case"}
@@ -669,8 +679,10 @@ func TestCheck(t *testing.T) {
 		}
 	})
 	lossCov := lossPart(run, pool)
+	haltCov := haltPart(run, pool)
 	cov := map[string]any{
 		"authority_lost_mid_transaction": lossCov,
+		"former_halt_lock_holder":        haltCov,
 		"states":                        ops,
 		"transitions":                   ops,
 		"traces_validated_against_impl": len(cases),
@@ -793,4 +805,20 @@ func lossPart(run *vlib.Run, pool *vlib.Pool) map[string]any {
 		"outcome_classes": classes,
 		"rule":            "for every transaction shape and kind of loss, the loss is injected before every file operation of the transaction (all positions) and the run continues to a settled cluster plus one follow-up commit by the next primary",
 	}
+}
+
+type poolRunner = *vlib.Pool
+
+func runHaltCases(pool *vlib.Pool, cases []any, fn func(i int, r *HaltResult, crash string)) {
+	pool.Run(cases, func(i int, out json.RawMessage, crash *vlib.Crash, flaky bool) {
+		if crash != nil {
+			fn(i, nil, fmt.Sprintf("worker died twice (timeout=%v)\n%s", crash.Timeout, tail(crash.Output, 2500)))
+			return
+		}
+		var r HaltResult
+		if err := json.Unmarshal(out, &r); err != nil {
+			r.Harness = "bad result: " + err.Error()
+		}
+		fn(i, &r, "")
+	})
 }
